@@ -44,6 +44,7 @@ struct Stats {
     probes: u64,
     str_allocs: u64,
     noop_frees: u64,
+    huge_strings: u64,
 }
 
 fn run_history(case: &Value, st: &mut Stats) -> V {
@@ -289,6 +290,37 @@ fn run_history(case: &Value, st: &mut Stats) -> V {
                     }
                 }
             }
+            "huge_str" => {
+                // a string of 4 GiB and a little: its length does not fit 32 bits. The text is a read-only
+                // mapping of zero pages (NUL characters), so it costs no memory. It cannot fit the backing
+                // arena: the only clean outcome is the arena's own capacity failure, with no slot taken.
+                let len = (1usize << 32) + g(1) as usize;
+                let text = zero_text(len);
+                let before: Vec<pv::ClassState> = (0..pv::CLASSES).map(|c| ps.class_state(c)).collect();
+                let r = catch_unwind(AssertUnwindSafe(|| {
+                    let s = ps.alloc_str(text);
+                    let x = (s.len(), s.capacity());
+                    std::mem::forget(s);
+                    x
+                }));
+                st.huge_strings += 1;
+                match r {
+                    Ok((l, c)) => {
+                        return bad("short-buffer", format!("step {step}: alloc_str of {len} bytes succeeded on a small arena (len {l}, capacity {c})"));
+                    }
+                    Err(e) => {
+                        let m = e.downcast_ref::<String>().cloned().or_else(|| e.downcast_ref::<&str>().map(|s| (*s).to_string())).unwrap_or_default();
+                        if !m.contains("arena capacity exceeded") {
+                            return bad("alloc-panicked", format!("step {step}: alloc_str of {len} bytes panicked: {m}"));
+                        }
+                        let after: Vec<pv::ClassState> = (0..pv::CLASSES).map(|c| ps.class_state(c)).collect();
+                        if after != before {
+                            return bad("conservation", format!("step {step}: a failed alloc_str of {len} bytes changed a class's counters"));
+                        }
+                        st.arena_full += 1;
+                    }
+                }
+            }
             "probe" => {
                 st.probes += 1;
                 for c in 0..pv::CLASSES {
@@ -432,6 +464,10 @@ impl Engine for C12 {
                 ops.push(json!(["probe", r.below(1000)]));
             }
         }
+        if i % 101 == 57 {
+            let at = r.usize(0, ops.len());
+            ops.insert(at, json!(["huge_str", r.pick(&[0u64, 5, 8, 200, 256, 257, 131_072])]));
+        }
         let slack: u64 = if r.chance(12) { r.pick(&[0u64, 1000, 70_000]) } else { 8 << 20 };
         json!({"counts": counts, "ops": ops, "arena_slack": slack})
     }
@@ -451,6 +487,7 @@ impl Engine for C12 {
         res.count("fault_class_exhausted_fallbacks", st.exhaustion_fallbacks);
         res.count("oversize_fallbacks", st.oversize_fallbacks);
         res.count("fault_backing_arena_full", st.arena_full);
+        res.count("strings_longer_than_4_gib", st.huge_strings);
         res.count("releases_of_fallback_buffers", st.noop_frees);
         res.count("ownership_probe_rounds", st.probes);
         res.count("histories_with_the_shipped_slot_table_and_bulk_churn", u64::from(case["ops"][0][0] == "alloc_many"));
@@ -538,4 +575,23 @@ impl Engine for C12 {
     fn components(&self) -> Value {
         json!({"real": ["src/arena/pool.rs (size_class, SlotBlock, FreeList, Pool, PoolSet)", "bump arena underneath"], "stub": [], "knobs": ["slot counts per class"]})
     }
+}
+
+/// `len` NUL characters: a private read-only mapping of never-touched anonymous memory (every page is
+/// the kernel's zero page), created once per process.
+fn zero_text(len: usize) -> &'static str {
+    thread_local! {
+        static ZEROS: std::cell::Cell<usize> = const { std::cell::Cell::new(0) };
+    }
+    const SIZE: usize = (1usize << 32) + (1 << 20);
+    assert!(len <= SIZE);
+    let base = ZEROS.with(|z| {
+        if z.get() == 0 {
+            let p = unsafe { libc::mmap(std::ptr::null_mut(), SIZE, libc::PROT_READ, libc::MAP_PRIVATE | libc::MAP_ANONYMOUS | libc::MAP_NORESERVE, -1, 0) };
+            assert!(p != libc::MAP_FAILED, "cannot map the zero text");
+            z.set(p as usize);
+        }
+        z.get()
+    });
+    unsafe { std::str::from_utf8_unchecked(std::slice::from_raw_parts(base as *const u8, len)) }
 }
